@@ -3,7 +3,10 @@ Spec: CelThreads.tla (interleavings of RECORDED shared-cell access programs); re
 from __future__ import annotations
 
 import collections
+import decimal
 import dis
+import logging
+import os
 import json
 import random
 import sys
@@ -29,33 +32,59 @@ EXPRS = [
 ]
 
 
+DEEP = 40
+
+
+def score_1(x):       # module-level functions: the compiled runner refers to them by their importable path
+    return ct.IntType(int(x) * 1000)
+
+
+def score_2(x):
+    return ct.IntType(int(x) * 2000)
+
+
+def make_score(i):
+    """every job supplies ITS OWN function under the same CEL name: module-level ones for i = 1, 2, nested ones otherwise"""
+    if i in (1, 2):
+        return {"score": (score_1, score_2)[i - 1]}
+
+    def score(x):
+        return ct.IntType(int(x) * 1000 * i)
+    return [score]
+
+
 def job_parts(job):
-    """job = (runner, expression kind, i): the text and the bindings (distinct constants make foreign values recognisable)"""
+    """job = (runner, expression kind, i): the text, the bindings and the functions (distinct constants make foreign values recognisable)"""
     runner, k, i = job
-    text = EXPRS[k] % (100 + i, 100 + i)
+    if k == 5:       # the SAME text in every job; what differs is the function each program was given
+        text, fns = "score(x) + 1", make_score(i)
+    elif k == 6:     # deeply parenthesised: needs the interpreter's raised recursion limit
+        text, fns = "(" * DEEP + "x + %d" % (100 + i) + ")" * DEEP, None
+    else:
+        text, fns = EXPRS[k] % (100 + i, 100 + i), None
     bind = {"x": ct.IntType(5 + i), "s": ct.StringType("s" * (i + 1)), "name": ct.StringType("p%d-db" % (100 + i)),
             "m": ct.MapType({ct.StringType("k%d" % (100 + i)): ct.IntType(7 * (i + 1))})}
-    return text, bind
+    return text, bind, fns
 
 
 def lifecycle(job):
     """what one thread does: its own environment, its own program, its own bindings, one evaluation"""
-    text, bind = job_parts(job)
+    text, bind, fns = job_parts(job)
     env = celpy.Environment(runner_class=celx.RUNNERS[job[0]])
-    prog = env.program(env.compile(text))
+    prog = env.program(env.compile(text), functions=fns)
     return prog.evaluate(dict(bind))
 
 
 def evaluation_only(job):
     """environment and program built beforehand (outside the scheduled region): only evaluate() is interleaved"""
-    text, bind = job_parts(job)
+    text, bind, fns = job_parts(job)
     env = celpy.Environment(runner_class=celx.RUNNERS[job[0]])
-    prog = env.program(env.compile(text))
+    prog = env.program(env.compile(text), functions=fns)
     return lambda: prog.evaluate(dict(bind))
 
 
 def make_job(runner, i):
-    text, bind = job_parts((runner, i % 4, i))
+    text, bind, _ = job_parts((runner, i % 4, i))
     env = celpy.Environment(runner_class=celx.RUNNERS[runner])
     return text, env.program(env.compile(text)), bind
 
@@ -84,6 +113,7 @@ def tracked_dicts():
                     out["%s.%s" % (name, k)] = v.__dict__
                 elif type(v).__module__.startswith(("celpy", "xlate")) and hasattr(v, "__dict__") and not isinstance(v, type(sys)):
                     out["%s.%s" % (name, k)] = v.__dict__
+    out["sys"] = {}         # marker: the interpreter settings of process_settings()
     return out
 
 
@@ -101,20 +131,30 @@ def fingerprint(v):
     return id(v)
 
 
+def process_settings():
+    """process-wide interpreter settings an evaluation might touch (not a namespace, but shared state all the same)"""
+    return {"recursionlimit": sys.getrecursionlimit(), "switchinterval": sys.getswitchinterval(), "cwd_env": hash(tuple(sorted(os.environ.items()))),
+            "logging_disabled": logging.root.manager.disable, "decimal_prec": decimal.getcontext().prec}
+
+
 def snapshot(dicts):
-    return {dn: {k: fingerprint(v) for k, v in list(d.items())} for dn, d in dicts.items()}
+    out = {dn: {k: fingerprint(v) for k, v in list(d.items())} for dn, d in dicts.items() if dn != "sys"}
+    if "sys" in dicts:
+        out["sys"] = process_settings()
+    return out
 
 
 def diff(a, b):
+    """cells whose fingerprint changed, with the new fingerprint (as text)"""
     out = []
     for dn in b:
         da, db = a.get(dn, {}), b[dn]
         for k, v in db.items():
             if da.get(k) != v:
-                out.append("%s:%s" % (dn, k))
+                out.append(("%s:%s" % (dn, k), str(v)))
         for k in da:
             if k not in db:
-                out.append("%s:%s" % (dn, k))
+                out.append(("%s:%s" % (dn, k), "<deleted>"))
     return out
 
 
@@ -140,6 +180,36 @@ def line_loads(code):
     return m
 
 
+_LINE_OBJ = {}
+
+
+def line_object_access(code):
+    """line -> (locals whose attributes the line loads, locals whose attributes it stores): LOAD_FAST x; LOAD_ATTR / STORE_ATTR"""
+    m = _LINE_OBJ.get(code)
+    if m is None:
+        m = {}
+        cur, prev = None, None
+        for ins in dis.get_instructions(code):
+            if ins.starts_line is not None:
+                cur = ins.starts_line
+            if cur is not None and prev is not None and prev.opname in ("LOAD_FAST", "LOAD_FAST_CHECK", "LOAD_DEREF"):
+                if ins.opname in ("LOAD_ATTR", "LOAD_METHOD"):
+                    m.setdefault(cur, (set(), set()))[0].add(prev.argval)
+                elif ins.opname == "STORE_ATTR":
+                    m.setdefault(cur, (set(), set()))[1].add(prev.argval)
+            prev = ins
+        _LINE_OBJ[code] = m
+    return m
+
+
+ALIVE = {}      # id -> object: objects seen as attribute targets are kept alive so that an id is never reused within a run
+
+
+def library_object(o):
+    t = type(o)
+    return (t.__module__ or "").startswith(("celpy", "xlate", "lark")) and hasattr(o, "__dict__") and not isinstance(o, type)
+
+
 def interesting(code):
     return code.co_filename.startswith(LIB_PREFIX) or code.co_filename == "<string>"
 
@@ -160,8 +230,9 @@ def record(body, prepare=lambda: None):
             if steps and (force or state["n"] % snap_every == 0):
                 now = snapshot(watch)
                 d = diff(state["snap"], now)
-                steps[-1]["w"] = d
-                state["changed"].update(c.split(":")[0] for c in d)
+                steps[-1]["w"] = [c for c, _ in d]
+                steps[-1]["v"] = [v for _, v in d]
+                state["changed"].update(c.split(":")[0] for c in steps[-1]["w"])
                 state["snap"] = now
 
         def local(frame, event, arg):
@@ -170,12 +241,23 @@ def record(body, prepare=lambda: None):
                 code = frame.f_code
                 gname = by_id.get(id(frame.f_globals))
                 g, a = line_loads(code).get(frame.f_lineno, ((), ()))
+                orr, oww = [], []
+                acc = line_object_access(code).get(frame.f_lineno)
+                if acc:
+                    loc = frame.f_locals
+                    for names, out in ((acc[0], orr), (acc[1], oww)):
+                        for nm in names:
+                            o = loc.get(nm)
+                            if o is not None and library_object(o):
+                                ALIVE[id(o)] = o
+                                out.append("obj:%s:%d" % (type(o).__name__, id(o)))
                 steps.append({"at": [code.co_filename.replace(LIB_PREFIX, "celpy"), frame.f_lineno],
-                              "g": sorted("%s:%s" % (gname, n) for n in g) if gname else [], "a": sorted(a), "w": []})
+                              "g": sorted("%s:%s" % (gname, n) for n in g) if gname else [], "a": sorted(a), "w": [], "v": [], "or": orr, "ow": oww})
             return local
 
         def glob(frame, event, arg):
             return local if interesting(frame.f_code) else None
+        reset_settings()
         prepare()
         steps, state["snap"] = [], snapshot(watch)
         fn = body()
@@ -205,17 +287,36 @@ def shared_program(all_steps):
     by_attr = {}
     for c in written:
         by_attr.setdefault(c.split(":", 1)[1], []).append(c)
+    # library objects that BOTH runs use as attribute targets are shared objects: every attribute store is a write of that
+    # object's cell (with a value no other store has), every attribute load a read
+    touched = [set(c for s in steps for c in s.get("or", []) + s.get("ow", [])) for steps in all_steps]
+    stored = set(c for steps in all_steps for s in steps for c in s.get("ow", []))
+    shared_objs = (set.intersection(*touched) if touched else set()) & stored
     progs = []
     for steps in all_steps:
         p = []
+        own_settings = set()
+        since = 0
         for j, s in enumerate(steps):
             r = [c for c in s["g"] if c in written]
             for a in s["a"]:
                 r += by_attr.get(a, [])
-            if r or s["w"]:
-                p.append({"i": j, "r": sorted(set(r)), "w": list(s["w"])})
+            # interpreter settings are read implicitly by everything: after a thread has set one, it relies on it -- modelled as a
+            # read every 40 lines and at its last line
+            since += 1
+            if own_settings and (since % 40 == 0 or j == len(steps) - 1):
+                r += sorted(own_settings)
+            own_settings.update(c for c in s["w"] if c.startswith("sys:"))
+            w, v = list(s["w"]), list(s["v"])
+            r += [c.rsplit(":", 1)[0] for c in s.get("or", []) if c in shared_objs]
+            for c in s.get("ow", []):
+                if c in shared_objs and c.rsplit(":", 1)[0] not in w:
+                    w.append(c.rsplit(":", 1)[0])           # one cell per class of shared object; the value says whose store it was
+                    v.append("thread %d" % len(progs))
+            if r or w:
+                p.append({"i": j, "r": sorted(set(r)), "w": w, "v": v})
         progs.append(p)
-    return progs, sorted(written)
+    return progs, sorted(written) + sorted(set(c.rsplit(":", 1)[0] for c in shared_objs))
 
 
 # --------------------------------------------------------------------------------------------------------------
@@ -263,7 +364,18 @@ class Sched:
         return glob
 
 
-def run_scheduled(bodies, plan):
+BASELINE = {"recursionlimit": sys.getrecursionlimit(), "switchinterval": sys.getswitchinterval()}
+
+
+def reset_settings():
+    """every experiment starts from the interpreter settings this process started with"""
+    sys.setrecursionlimit(BASELINE["recursionlimit"])
+    sys.setswitchinterval(BASELINE["switchinterval"])
+
+
+def run_scheduled(factories, plan):
+    reset_settings()
+    bodies = [f() for f in factories]       # whatever the bodies prepare outside the scheduled region happens after the reset
     s = Sched(plan, len(bodies))
     res = [None] * len(bodies)
 
@@ -290,7 +402,15 @@ def tlc_interleavings(ctx, progs, name):
     """all interleavings of the recorded programs; returns (ok, witness schedule or None, stats)"""
     pf = ctx.work / ("progs_%d.json" % (int(time.time() * 1000) % 10**9))
     pf.write_text(json.dumps(progs))
-    r = run_tlc("CelThreads", "SPECIFICATION Spec\nINVARIANT NoInterference\nCHECK_DEADLOCK FALSE\n", ctx.work, env={"PROG_FILE": str(pf)}, workers=4)
+    try:
+        r = run_tlc("CelThreads", "SPECIFICATION Spec\nINVARIANT NoInterference\nCHECK_DEADLOCK FALSE\n", ctx.work, env={"PROG_FILE": str(pf)}, workers=4, timeout=180)
+    except MachineryError as ex:
+        if "timeout" not in str(ex):
+            raise
+        # too many shared accesses to enumerate every interleaving in the time allowed: the replayed schedules still run
+        ctx.cov.setdefault("model_not_exhausted", []).append(name)
+        ctx.cov["exhaustive"] = False
+        return False, None
     ctx.cov["states"] += r.distinct
     ctx.cov["transitions"] += r.generated
     ctx.cov["tlc_runs"].append({"name": name, "module": "CelThreads", "distinct_states": r.distinct, "states_generated": r.generated, "depth": r.depth,
@@ -313,7 +433,8 @@ def tlc_interleavings(ctx, progs, name):
 
 
 PAIRS_QUICK = [(("I", 0, 0), ("I", 1, 1)), (("C", 0, 0), ("C", 1, 1)), (("C", 2, 2), ("C", 3, 3)), (("I", 2, 2), ("C", 0, 3)),
-               (("C", 4, 1), ("C", 4, 2)), (("I", 4, 1), ("I", 4, 2)), (("C", 3, 4), ("I", 4, 5))]
+               (("C", 4, 1), ("C", 4, 2)), (("I", 4, 1), ("I", 4, 2)), (("C", 3, 4), ("I", 4, 5)),
+               (("C", 5, 1), ("C", 5, 2)), (("I", 5, 1), ("I", 5, 2)), (("C", 5, 3), ("C", 5, 4)), (("I", 6, 1), ("I", 6, 2)), (("C", 6, 1), ("I", 6, 2))]
 
 
 def run(ctx: Ctx) -> int:
@@ -322,7 +443,7 @@ def run(ctx: Ctx) -> int:
     total_sched = 0
     pairs = list(PAIRS_QUICK)
     if not q:
-        pairs += [((r1, k1, 1), (r2, k2, 2)) for r1 in "IC" for r2 in "IC" for k1 in range(5) for k2 in range(5) if (r1, k1) <= (r2, k2)]
+        pairs += [((r1, k1, 1), (r2, k2, 2)) for r1 in "IC" for r2 in "IC" for k1 in range(7) for k2 in range(7) if (r1, k1) <= (r2, k2)]
     # two kinds of thread body: the whole lifecycle (environment, compile, program, evaluate) and evaluate() alone
     for mode in ("lifecycle", "evaluate"):
         for a, b in pairs:
@@ -333,13 +454,14 @@ def run(ctx: Ctx) -> int:
             else:
                 pa, pb = evaluation_only(a), evaluation_only(b)
                 factories = [lambda: pa, lambda: pb]
-            texts = [job_parts(a)[0], job_parts(b)[0]]
+            texts = [job_parts(a)[0][:80], job_parts(b)[0][:80]]
             # each job alone -- after the OTHER job has run, so that a write which restores what the job itself left behind
             # last time still shows as a write
             solo, rec = [None, None], [None, None]
             for t in (0, 1):
                 solo[t], rec[t] = record(factories[t], prepare=lambda: result_of(factories[1 - t]()))
                 result_of(factories[1 - t]())
+                reset_settings()
                 again = result_of(factories[t]())
                 if again != solo[t]:
                     ctx.disagree("solo %s is not repeatable runner=%s" % (mode, (a, b)[t][0]), {"cel": texts[t], "first": solo[t], "second": again})
@@ -358,12 +480,23 @@ def run(ctx: Ctx) -> int:
             # every single-preemption schedule at the lines that touch shared cells (+-1), and a sample of all lines
             for first in (0, 1):
                 ks = set()
-                for j in touching[first][:40]:
+                tl = touching[first]
+                if len(tl) > 140:
+                    tl = tl[:10] + tl[10:-10:max(1, (len(tl) - 20) // 120)] + tl[-10:]
+                for j in tl:
                     ks.update((j, j + 1, j + 2))
                 stride = max(1, n[first] // (10 if q else 60))
                 ks.update(range(1, n[first], stride))
                 for k in sorted(x for x in ks if 0 < x < n[first]):
                     plans.append(("preempt thread %d after %d lines" % (first, k), [first] * k + [1 - first] * (n[1 - first] + 5) + [first] * (n[first] + 5)))
+            # two preemptions placed at the writes of shared cells: t runs to just after one of its writes, the other thread to just
+            # after one of its own, then t to its end, then the other -- the shape in which a stale save / restore does damage
+            wl = [[s["i"] for s in p if s["w"]] for p in progs]
+            for first in (0, 1):
+                for ka in wl[first][:6]:
+                    for kb in wl[1 - first][:6]:
+                        plans.append(("two preemptions at shared writes (thread %d after line %d, thread %d after line %d)" % (first, ka + 1, 1 - first, kb + 1),
+                                      [first] * (ka + 1) + [1 - first] * (kb + 1) + [first] * (n[first] + 5) + [1 - first] * (n[1 - first] + 5)))
             if not q:
                 for _ in range(30):     # two preemptions
                     k1 = rng.randrange(1, n[0])
@@ -371,7 +504,7 @@ def run(ctx: Ctx) -> int:
                     plans.append(("two preemptions", [0] * k1 + [1] * k2 + [0] * (n[0] + 5) + [1] * (n[1] + 5)))
             for what, plan in plans:
                 total_sched += 1
-                got = run_scheduled([factories[0](), factories[1]()], plan)
+                got = run_scheduled(factories, plan)
                 for t in (0, 1):
                     if got[t] != solo[t]:
                         foreign = "the other thread's value" if got[t] == solo[1 - t] else "another outcome"
@@ -380,7 +513,7 @@ def run(ctx: Ctx) -> int:
                             first, k = int(what.split()[2]), int(what.split()[4])
                             at = " at %s:%d" % tuple(rec[first][k - 1]["at"])
                         ctx.disagree("%s: runner=%s (other thread %s) returns %s under a %s schedule" % (
-                                         mode, (a, b)[t][0], (a, b)[1 - t][0], foreign, what.split(" thread")[0] if what.startswith("preempt") else what),
+                                         mode, (a, b)[t][0], (a, b)[1 - t][0], foreign, what.split(" thread")[0] if what.startswith("preempt") else what.split(" (")[0]),
                                      {"mode": mode, "jobs": [[a[0], texts[0]], [b[0], texts[1]]], "schedule": what + at, "thread": t, "alone": solo[t], "observed": got[t],
                                       "tlc_says_interference_possible": not ok, "cells": cells[:8]})
                         break
